@@ -259,6 +259,57 @@ func checkC09(c *km.Ctx) {
 		}
 	}
 
+	// ---------------- R-C09-7 the generated sealed key is complete
+	r.Rule("R-C09-7", "the sealed key file written by the configuration generator is complete: the armor encoder is closed (flushed) before its buffer is written out, so that the passphrase it was sealed with unseals it", 1)
+	if gen := c.MustFunc("R-C09-7", "cmd/keymasterd", "generateArmoredEncryptedCAPrivateKey"); gen != nil {
+		var enc *ssa.Call
+		for _, ci := range km.CallsIn(gen) {
+			if cl, ok := ci.(*ssa.Call); ok && strings.HasSuffix(km.CalleeFull(cl.Common()), "openpgp/armor.Encode") {
+				enc = cl
+			}
+		}
+		if enc == nil {
+			r.AnchorLost("R-C09-7", "armor.Encode in generateArmoredEncryptedCAPrivateKey")
+		} else {
+			buf := km.Unwrap(enc.Common().Args[0])
+			if mi, ok := buf.(*ssa.MakeInterface); ok {
+				buf = km.Unwrap(mi.X)
+			}
+			var w ssa.Value
+			for _, ref := range *enc.Referrers() {
+				if ex, ok := ref.(*ssa.Extract); ok && ex.Index == 0 {
+					w = ex
+				}
+			}
+			var closes []ssa.Instruction
+			for _, ci := range km.CallsIn(gen) {
+				if _, isDefer := ci.(*ssa.Defer); isDefer {
+					continue
+				}
+				if ci.Common().IsInvoke() && ci.Common().Method.Name() == "Close" && km.Unwrap(ci.Common().Value) == w {
+					closes = append(closes, ci)
+				}
+			}
+			n := 0
+			for _, ci := range km.CallsIn(gen) {
+				if km.CalleeFull(ci.Common()) != "(*bytes.Buffer).Bytes" || km.Unwrap(ci.Common().Args[0]) != buf {
+					continue
+				}
+				n++
+				ok := false
+				for _, cl := range closes {
+					if km.InstrDominates(cl, ci) {
+						ok = true
+					}
+				}
+				r.Add("R-C09-7", km.FuncName(gen), "armor encoder closed before its buffer is read", posOf(c, ci), "a (non-deferred) Close of the armor writer dominates every read of the buffer it writes to", sprintf("%v", ok), ok)
+			}
+			if n == 0 {
+				r.AnchorLost("R-C09-7", "read of the armor buffer in generateArmoredEncryptedCAPrivateKey")
+			}
+		}
+	}
+
 	// ---------------- R-C09-3
 	if inj := c.MustFunc("R-C09-3", "cmd/keymasterd", "(*RuntimeState).secretInjectorHandler"); inj != nil && unseal != nil {
 		tls := km.Prim{Name: "r.TLS != nil", Direct: func(f km.Fact) bool {
